@@ -83,8 +83,7 @@ def df_sig(t, clause, details):
 
 
 def judge(d, traces, chunk=120):
-    for f in ('DataFlowObsTrace.tla',):
-        shutil.copy(os.path.join(common.SPEC, 'dataflow', f), d)
+    common.put_spec(d, *[os.path.join('dataflow', f_) for f_ in ('DataFlowObsTrace.tla',)])
     nch = (len(traces) + chunk - 1) // chunk
 
     def one(k):
@@ -132,7 +131,7 @@ def model_runs(d, tier):
     """DataFlow.tla: the version-merge algorithm satisfies SeesLatest on every graph / publish placement / fold order
     of the classes in which the real engine is demanded to satisfy it."""
     out = []
-    shutil.copy(os.path.join(common.SPEC, 'dataflow', 'DataFlow.tla'), d)
+    common.put_spec(d, os.path.join('dataflow', 'DataFlow.tla'))
 
     def one(c):
         nm, n, keys, nested, homog = c
